@@ -18,7 +18,8 @@ type buildScenario struct {
 	Cfg  genCfg
 	Alt  bool // use another version constant of the same generation
 	Msgs []*genMsg
-	Base map[string]int64 // "topic/partition" -> base offset answered
+	Base map[string]int64     // "topic/partition" -> base offset answered
+	LAT  map[string]time.Time // "topic/partition" -> log-append time answered in the block (absent: -1)
 }
 
 func tpKey(topic string, partition int32) string { return fmt.Sprintf("%s/%d", topic, partition) }
@@ -26,7 +27,7 @@ func tpKey(topic string, partition int32) string { return fmt.Sprintf("%s/%d", t
 var baseChoices = []int64{0, 1, 7, 1000, 2147483647, 2147483648, 4294967295, 4294967296 + 5, 1 << 40, (1 << 62) + 3}
 
 func genBuild(r *rand.Rand, i int) *buildScenario {
-	s := &buildScenario{Cfg: randCfg(r, i), Alt: r.Intn(4) == 0, Base: map[string]int64{}}
+	s := &buildScenario{Cfg: randCfg(r, i), Alt: r.Intn(4) == 0, Base: map[string]int64{}, LAT: map[string]time.Time{}}
 	nparts := 1 + r.Intn(3)
 	type tp struct {
 		t int
@@ -95,6 +96,9 @@ func genBuild(r *rand.Rand, i int) *buildScenario {
 	}
 	for _, k := range tps {
 		s.Base[tpKey(topicName(k.t), k.p)] = baseChoices[r.Intn(len(baseChoices))] + int64(r.Intn(3))
+		if r.Intn(5) < 2 { // the topic is LogAppendTime: the block carries the broker's clock
+			s.LAT[tpKey(topicName(k.t), k.p)] = time.Unix(1700000000+int64(r.Intn(1000)), int64(r.Intn(1000))*1000000)
+		}
 	}
 	return s
 }
@@ -114,7 +118,7 @@ func buildCorpus() []*buildScenario {
 			out = append(out, &buildScenario{Cfg: genCfg{Gen: gen, Codec: codec, Level: sarama.CompressionLevelDefault, Pid: -1, Epoch: -1},
 				Msgs: []*genMsg{mk(1, 2, nil, []byte("1:a"), ts), mk(2, 2, []byte{}, nil, time.Time{}), mk(3, 2, []byte("k"), []byte{}, ts.Add(-1500*time.Microsecond)),
 					mk(4, 0, []byte("k4"), []byte("4:b"), ts.Add(999*time.Microsecond))},
-				Base: map[string]int64{"t0/2": 4294967296 + 41, "t0/0": 12}})
+				Base: map[string]int64{"t0/2": 4294967296 + 41, "t0/0": 12}, LAT: map[string]time.Time{"t0/2": time.Unix(1700000000, 123000000)}})
 		}
 	}
 	return out
@@ -152,6 +156,11 @@ func runBuild(s *buildScenario, r *rand.Rand) (string, cf.Sidecar) {
 	}
 	desc["msgs"] = md
 	desc["bases"] = s.Base
+	lats := map[string]int64{}
+	for k, v := range s.LAT {
+		lats[k] = v.UnixNano()
+	}
+	desc["logappend"] = lats
 
 	if res.Panic != "" {
 		fail("build:panic", "buildRequest/encode panicked: "+res.Panic)
@@ -219,7 +228,7 @@ func runBuild(s *buildScenario, r *rand.Rand) (string, cf.Sidecar) {
 					fail("build:position", fmt.Sprintf("%s: no record at base+%d for message %d", k, i, m.ID))
 					continue
 				}
-				if d := compareEntry(s.Cfg, m, e, lo, hi); d != "" {
+				if d := compareEntry(s.Cfg, m, e, lo, hi, time.Time{}); d != "" {
 					fail("build:"+d, fmt.Sprintf("%s: the record at base+%d differs from message %d in its %s", k, i, m.ID, d))
 				}
 				if m.TS.IsZero() && e.HasTS {
@@ -270,13 +279,15 @@ func runBuild(s *buildScenario, r *rand.Rand) (string, cf.Sidecar) {
 				fail("build:set-msgs", k+": partitionSet.msgs does not hold the accepted messages")
 			}
 			setTerms = append(setTerms, fmt.Sprintf("(%s, %s)", coqTpk(topicIndex(p.Topic), p.Partition), cf.ZList(ids)))
-			baseTerms = append(baseTerms, fmt.Sprintf("(%s, %s)", coqTpk(topicIndex(p.Topic), p.Partition), cf.Z(base)))
+			baseTerms = append(baseTerms, fmt.Sprintf("(%s, (%s, %s))", coqTpk(topicIndex(p.Topic), p.Partition), cf.Z(base), coqTime(s.LAT[k])))
 		}
 	}
 	// handleSuccess on the same set
 	var succTerms []string
 	if mon == nil && nacc > 0 {
-		succ, nerr := h.VerifC04HandleSuccess(res.Version, func(topic string, partition int32) int64 { return s.Base[tpKey(topic, partition)] })
+		succ, nerr := h.VerifC04HandleSuccess(res.Version, func(topic string, partition int32) (int64, time.Time) {
+			return s.Base[tpKey(topic, partition)], s.LAT[tpKey(topic, partition)]
+		})
 		if nerr != 0 || len(succ) != nacc {
 			fail("success:count", fmt.Sprintf("%d successes and %d errors for %d messages answered NoError", len(succ), nerr, nacc))
 		}
@@ -284,7 +295,15 @@ func runBuild(s *buildScenario, r *rand.Rand) (string, cf.Sidecar) {
 		for _, sc := range succ {
 			m := byPtr[sc.Msg]
 			got[m.ID] = sc.Offset
-			succTerms = append(succTerms, fmt.Sprintf("(%d, %s)", m.ID, cf.Z(sc.Offset)))
+			succTerms = append(succTerms, fmt.Sprintf("(%d, (%s, %s))", m.ID, cf.Z(sc.Offset), coqTime(sc.Timestamp)))
+			// the reported timestamp: the broker's log-append time when the block carries one (0.10+), else the application's own
+			wantTS := m.TS
+			if lat, ok := s.LAT[tpKey(topicName(m.Topic), m.Partition)]; ok && s.Cfg.Gen >= 1 {
+				wantTS = lat
+			}
+			if !sc.Timestamp.Equal(wantTS) || sc.Timestamp.IsZero() != wantTS.IsZero() {
+				fail("success:timestamp", fmt.Sprintf("message %d reported with timestamp %v, expected %v", m.ID, sc.Timestamp, wantTS))
+			}
 			if sc.Msg.Partition != m.Partition {
 				fail("success:partition", fmt.Sprintf("message %d reported on partition %d, was %d", m.ID, sc.Msg.Partition, m.Partition))
 			}
